@@ -463,12 +463,39 @@ func c06Profile(c *mc.Ctx) {
 	}
 	db := stores.NewMemStore()
 	tsum := bytes.Repeat([]byte{9}, 16)
+	// a profile (like a table index) is stored under its TABLE's sum, not its own hash: writing one
+	// for a table that already has another (wrgl profile --refresh) must replace it
+	older := &objects.TableProfile{Version: 1, RowsCount: 7, Columns: []*objects.ColumnProfile{{Name: "older"}}}
+	ob := bytes.NewBuffer(nil)
+	older.WriteTo(ob)
+	if err := objects.SaveTableProfile(db, tsum, ob.Bytes()); err != nil {
+		c.Fail("profile-error", "SaveTableProfile: %v", err)
+	}
 	if err := objects.SaveTableProfile(db, tsum, enc); err != nil {
 		c.Fail("profile-error", "SaveTableProfile: %v", err)
 	}
 	got, err := objects.GetTableProfile(db, tsum)
 	if err != nil || !reflect.DeepEqual(got, tp) {
-		c.Fail("profile-roundtrip", "GetTableProfile differs (err %v); %s", err, desc)
+		c.Fail("profile-roundtrip", "GetTableProfile after writing the profile over an older one differs from what was written (err %v); %s", err, desc)
+	}
+	// same for the table index: first keys of the blocks, rewritten for the same table
+	idx1 := [][]string{{"a"}, {"m"}}
+	idx2 := [][]string{{"b", fmt.Sprint(mask)}, {"n", ""}}
+	for _, idx := range [][][]string{idx1, idx2} {
+		ib := bytes.NewBuffer(nil)
+		if _, err := objects.WriteBlockTo(objects.NewStrListEncoder(true), ib, idx); err != nil {
+			c.Fail("tblidx-error", "WriteBlockTo(table index): %v", err)
+			return
+		}
+		if err := objects.SaveTableIndex(db, tsum, ib.Bytes()); err != nil {
+			c.Fail("tblidx-error", "SaveTableIndex: %v", err)
+			return
+		}
+		gi, err := objects.GetTableIndex(db, tsum)
+		if err != nil || !reflect.DeepEqual(gi, idx) {
+			c.Fail("tblidx-roundtrip", "GetTableIndex returns %q (err %v) after %q was written for the table; %s", gi, err, idx, desc)
+			return
+		}
 	}
 	c.Outcome("roundtrip")
 	c.Nontrivial(desc)
